@@ -15,13 +15,13 @@ From Galene Require Import Model.Admission Proofs.Admission.
 Import ListNotations.
 Open Scope Z_scope.
 
-(* A non-operator admitted by a step of any schedule saw, in the state of
+(* A non-operator let in by a step of any schedule saw, in the state of
    that very step: group not locked, now inside [not-before, expires], with
    autokick an operator among the members, and fewer than max-clients
    members when max-clients > 0. *)
-Theorem C10_admit_conditions : forall d l pre now j o post,
+Theorem C10_entry_conditions : forall d l pre now j o post,
   In (pre, SAddClient now j, o, post) (exec (created d) l) ->
-  o_res o = RAdmitted ->
+  o_res o = RAccepted ->
   j_sys j = false -> d_auth (g_desc pre) (j_cred j) = Some false ->
   g_locked pre = None /\
   (forall nb, d_not_before (g_desc pre) = Some nb -> nb <= now) /\
@@ -30,11 +30,11 @@ Theorem C10_admit_conditions : forall d l pre now j o post,
   (0 < d_max_clients (g_desc pre) -> zlength (g_clients pre) < d_max_clients (g_desc pre)).
 Proof.
   intros d l pre now j o post Hin.
-  exact (admit_conditions_step pre now j post o (exec_step _ _ _ _ _ _ Hin)).
+  exact (entry_conditions_step pre now j post o (exec_step _ _ _ _ _ _ Hin)).
 Qed.
-Print Assumptions C10_admit_conditions.
+Print Assumptions C10_entry_conditions.
 
-(* Operators (valid credentials giving "op") and system clients are admitted
+(* Operators (valid credentials giving "op") and system clients are let in
    whatever the lock, window, autokick and capacity, provided the id is not
    empty and not a member's; they become members and are announced. *)
 Theorem C10_ops_exempt : forall d l pre now j o post,
@@ -42,7 +42,7 @@ Theorem C10_ops_exempt : forall d l pre now j o post,
   (j_sys j = true \/ d_auth (g_desc pre) (j_cred j) = Some true) ->
   j_id j <> [] -> ~ In (j_id j) (ids (g_clients pre)) ->
   exists c,
-    o = mkOut RAdmitted (announce j (g_clients pre)) /\
+    o = mkOut RAccepted (announce j (g_clients pre)) /\
     post = mkGroup (g_locked pre) (g_clients pre ++ [(j_id j, c)]) (g_desc pre) /\
     c_uid c = j_uid j /\ c_sys c = j_sys j /\ (j_sys j = false -> c_op c = true).
 Proof.
@@ -53,12 +53,12 @@ Proof.
 Qed.
 Print Assumptions C10_ops_exempt.
 
-(* Capacity, what the code guarantees: a non-operator is never admitted to a
-   group that already holds max-clients members, so the step that admits it
+(* Capacity, what the code guarantees: a non-operator is never let in to a
+   group that already holds max-clients members, so the step that lets in it
    leaves at most max-clients members ... *)
 Theorem C10_capacity : forall d l pre now j o post,
   In (pre, SAddClient now j, o, post) (exec (created d) l) ->
-  o_res o = RAdmitted ->
+  o_res o = RAccepted ->
   j_sys j = false -> d_auth (g_desc pre) (j_cred j) = Some false ->
   0 < d_max_clients (g_desc pre) ->
   zlength (g_clients post) <= d_max_clients (g_desc pre) /\
@@ -70,7 +70,7 @@ Qed.
 Print Assumptions C10_capacity.
 
 (* ... and, while every version of the description has max-clients = m > 0,
-   the members admitted under the non-operator rules never number more than
+   the members let in under the non-operator rules never number more than
    m in any reachable state.  (Operators and system clients are not bounded:
    C10_capacity_ops_exceed.) *)
 Theorem C10_capacity_invariant : forall d l m,
@@ -101,7 +101,7 @@ Print Assumptions C10_unique_ids.
    description) unchanged and calls back nobody. *)
 Theorem C10_reject_no_effect : forall d l pre now j o post,
   In (pre, SAddClient now j, o, post) (exec (created d) l) ->
-  o_res o <> RAdmitted ->
+  o_res o <> RAccepted ->
   post = pre /\ o_events o = [].
 Proof.
   intros d l pre now j o post Hin.
@@ -152,12 +152,12 @@ Proof.
 Qed.
 Print Assumptions C10_autolock_after_last_op.
 
-(* Hence, with autolock, a non-operator is admitted only while an operator
+(* Hence, with autolock, a non-operator is let in only while an operator
    is a member. *)
 Theorem C10_autolock_admission : forall d l pre now j o post,
   guarded_unlocks (created d) l ->
   In (pre, SAddClient now j, o, post) (exec (created d) l) ->
-  o_res o = RAdmitted -> j_sys j = false ->
+  o_res o = RAccepted -> j_sys j = false ->
   d_auth (g_desc pre) (j_cred j) = Some false ->
   d_autolock (g_desc pre) = true ->
   has_op (g_clients pre) = true.
@@ -172,7 +172,7 @@ Proof. exists (demo_desc 0 true false), [SSetLocked false []]. exact unguarded_u
 Print Assumptions C10_autolock_unguarded_unlock_refuted.
 
 (* Regression of F4 (fixed by ba2fd43): if DelClient is split into removal
-   and a later autoLockKick, as the code was, a non-operator is admitted to
+   and a later autoLockKick, as the code was, a non-operator is let in to
    an autolock group after its last operator left (all unlocks guarded). *)
 Theorem C10_autolock_split_delclient_refuted :
   let d := demo_desc 0 true false in
@@ -182,25 +182,25 @@ Theorem C10_autolock_split_delclient_refuted :
             OStep (SAdd None); ODelRemove [111] 1; OStep (SAddClient 0 u); ODelAutoLock] in
   exists pre out post,
     In (pre, OStep (SAddClient 0 u), out, post) (old_exec (created d) l) /\
-    o_res out = RAdmitted /\ d_autolock (g_desc pre) = true /\
+    o_res out = RAccepted /\ d_autolock (g_desc pre) = true /\
     has_op (g_clients pre) = false /\ d_auth (g_desc pre) (j_cred u) = Some false.
 Proof. exact f4_split_delclient_witness. Qed.
 Print Assumptions C10_autolock_split_delclient_refuted.
 
-(* Autokick.  No non-operator is admitted without an operator present (this
-   is the fourth conjunct of C10_admit_conditions), and the step after which
+(* Autokick.  No non-operator is let in without an operator present (this
+   is the fourth conjunct of C10_entry_conditions), and the step after which
    an autokick group has no operator -- the DelClient of the last operator, or
    an Add -- schedules the kick of every remaining member. *)
 Theorem C10_autokick_admission : forall d l pre now j o post,
   In (pre, SAddClient now j, o, post) (exec (created d) l) ->
-  o_res o = RAdmitted ->
+  o_res o = RAccepted ->
   j_sys j = false -> d_auth (g_desc pre) (j_cred j) = Some false ->
   d_autokick (g_desc pre) = true ->
   has_op (g_clients pre) = true.
 Proof.
   intros d l pre now j o post Hin Hres Hs Ha.
   exact (proj1 (proj2 (proj2 (proj2
-    (admit_conditions_step pre now j post o (exec_step _ _ _ _ _ _ Hin) Hres Hs Ha))))).
+    (entry_conditions_step pre now j post o (exec_step _ _ _ _ _ _ Hin) Hres Hs Ha))))).
 Qed.
 Print Assumptions C10_autokick_admission.
 
@@ -227,7 +227,7 @@ Print Assumptions C10_autokick_add.
 
 (* Non-vacuity: one schedule on an autolock + autokick group with
    max-clients 2 in which the group starts locked, an operator joins and
-   unlocks (guarded), a non-operator is admitted, a second one too, a third
+   unlocks (guarded), a non-operator is let in, a second one too, a third
    is refused (too many users), a duplicate id is refused, the operator
    leaves: the group is locked again and both members are scheduled to be
    kicked, and the next non-operator is refused.  The hypotheses of the
@@ -240,9 +240,9 @@ Example C10_example :
   let jw := mkJoiner 4 [119] false false 2 in
   let jd := mkJoiner 5 [117] false false 0 in
   let l := [SAdd None; SAddClient 0 ju;          (* locked *)
-            SAdd None; SAddClient 0 jo;          (* operator admitted *)
+            SAdd None; SAddClient 0 jo;          (* operator let in *)
             SSetLocked false [];                 (* guarded unlock *)
-            SAdd None; SAddClient 0 ju;          (* admitted *)
+            SAdd None; SAddClient 0 ju;          (* let in *)
             SAdd None; SAddClient 0 jv;          (* too many: 2 >= 2 *)
             SDelClient [117] 9;                  (* not the member object *)
             SAdd None; SAddClient 0 jd;          (* duplicate id *)
@@ -250,7 +250,7 @@ Example C10_example :
             SAdd None; SAddClient 0 jw] in       (* locked again *)
   guarded_unlocks (created d) l /\
   map (fun x => o_res (snd (fst x))) (exec (created d) l) =
-    [RDone; RLocked locked_msg; RDone; RAdmitted; RDone; RDone; RAdmitted; RDone; RTooMany;
+    [RDone; RLocked locked_msg; RDone; RAccepted; RDone; RDone; RAccepted; RDone; RTooMany;
      RUnknown; RDone; RDupId; RDone; RDone; RLocked locked_msg] /\
   g_locked (created d) = Some locked_msg /\
   ids (g_clients (run (created d) l)) = [[117]] /\
